@@ -142,6 +142,14 @@ def build_job(unit, job, c_path, workdir, small=False):
         rc, out, _ = run(gi, 600, workdir)
         if rc != 0:
             raise Undecided('goto-instrument failed for %s: %s' % (name, out[-3000:]))
+    elif kind == 'plainloops':
+        # loop contracts applied without the dfcc function-contract machinery (far fewer auxiliary objects: symex of
+        # dereferences through loop-havocked pointers is ~40x faster); the harness asserts the postcondition itself
+        gi = ['goto-instrument', '--apply-loop-contracts', a, b]
+        cmds.append(gi)
+        rc, out, _ = run(gi, 600, workdir)
+        if rc != 0:
+            raise Undecided('goto-instrument --apply-loop-contracts failed for %s: %s' % (name, out[-3000:]))
     else:
         b = a
     return b, cmds
@@ -150,7 +158,7 @@ def cbmc_cmd(job, binary, extra=()):
     cmd = ['cbmc', binary] + job.get('checks', STD_CHECKS) + ['--json-ui', '--object-bits', str(job.get('object_bits', 8))]
     if job.get('unwind') is not None:
         cmd += ['--unwind', str(job['unwind']), '--unwinding-assertions']
-    if job.get('kind', 'enforce') == 'plain':
+    if job.get('kind', 'enforce') in ('plain', 'plainloops'):
         cmd += ['--drop-unused-functions']
     cmd += job.get('cbmc_flags', [])
     cmd += list(extra)
@@ -167,7 +175,7 @@ def run_job(unit, job, c_path, workdir, tier):
         if job.get('per_property'):
             # long straight-line code: one cbmc process per assertion (DESIGN probe E)
             rc, out, _ = run(['cbmc', binary, '--show-properties', '--json-ui'] + job.get('checks', STD_CHECKS) +
-                             (['--drop-unused-functions'] if job.get('kind', 'enforce') == 'plain' else []) +
+                             (['--drop-unused-functions'] if job.get('kind', 'enforce') in ('plain', 'plainloops') else []) +
                              (['--unwind', str(job['unwind'])] if job.get('unwind') is not None else []), 300, workdir)
             props = []
             for o in json.loads(out):
@@ -175,7 +183,8 @@ def run_job(unit, job, c_path, workdir, tier):
                     props = [p['name'] for p in o['properties']]
             sel = [p for p in props if re.search(job['per_property'], p)]
             rest = [p for p in props if p not in set(sel)]
-            groups = [[p] for p in sel] + ([rest] if rest else [])
+            chunk = job.get('pp_chunk', 1)
+            groups = [sel[i:i + chunk] for i in range(0, len(sel), chunk)] + ([rest] if rest else [])
             allres = []
             def one(grp):
                 extra = []
